@@ -25,8 +25,8 @@ def _calc_overlapping_labels(
     Returns:
         _type_: _description_
     """
-    overlap_arr = prediction_arr.astype(np.uint32)
-    max_ref = max(ref_labels) + 1
+    overlap_arr = prediction_arr.astype(np.uint64)
+    max_ref = int(max(ref_labels)) + 1
     overlap_arr = (overlap_arr * max_ref) + reference_arr
     overlap_arr[reference_arr == 0] = 0
     # overlapping_indices = [(i % (max_ref), i // (max_ref)) for i in np.unique(overlap_arr) if i > max_ref]
@@ -34,9 +34,9 @@ def _calc_overlapping_labels(
 
     # (ref, pred)
     return [
-        (int(i % (max_ref)), int(i // (max_ref)))
+        (int(i) % max_ref, int(i) // max_ref)
         for i in np.unique(overlap_arr)
-        if i > max_ref
+        if int(i) > max_ref
     ]
 
 
